@@ -6508,8 +6508,9 @@ bool SoPlexBase<R>::setRealParam(const RealParam param, const Real value, const 
    if(!init && value == realParam(param))
       return true;
 
-   if(value < _currentSettings->realParam.lower[param]
-         || value > _currentSettings->realParam.upper[param])
+   // written so that NaN is rejected as well
+   if(!(value >= _currentSettings->realParam.lower[param]
+         && value <= _currentSettings->realParam.upper[param]))
       return false;
 
    // required to set a different feastol or opttol
